@@ -192,6 +192,9 @@ func vxCheckRound(h *vxHistory, db *DB, pos ltx.TXID, exec *syncExecutor, info s
 	for i := 0; i < 3; i++ {
 		vx.Assert("next-sync-brings-replica-to-source", replica[i] == source[i])
 	}
+	if vx.Param("E2E", 0) == 1 {
+		vxCheckEndToEnd(db, next, source)
+	}
 	if vx.Param("ROUND2", 1) == 0 {
 		return
 	}
@@ -210,6 +213,36 @@ func vxCheckRound(h *vxHistory, db *DB, pos ltx.TXID, exec *syncExecutor, info s
 	for i := 0; i < 3; i++ {
 		vx.Assert("idle-round-keeps-replica-at-source", replica[i] == source[i])
 	}
+}
+
+// vxCheckEndToEnd carries the same symbolic history through the rest of the chain:
+// the real Replica.syncOnce uploads what the round published to a replica that
+// already holds the earlier files, and the real Replica.Restore (restore plan, ltx
+// compaction, decode, rename) rebuilds a database from the replica alone; its
+// pages must be the source's.
+func vxCheckEndToEnd(db *DB, last ltx.TXID, source [3]uint64) {
+	c := &vxStoreClient{}
+	c.data = map[[3]uint64][]byte{}
+	for t := ltx.TXID(1); t < last; t++ {
+		b := vx.FSReadFile(db.LTXPath(0, t, t))
+		c.data[vxKey(0, t, t)] = b
+		c.files = append(c.files, &ltx.FileInfo{Level: 0, MinTXID: t, MaxTXID: t, Size: int64(len(b))})
+	}
+	r := NewReplicaWithClient(db, c)
+	db.Replica = r
+	ctx := context.Background()
+	res, err := r.syncOnce(ctx, 0)
+	if err != nil {
+		return // loud
+	}
+	vx.Assert("upload-acknowledged-means-stored", !res.limited && c.data[vxKey(0, last, last)] != nil)
+	out := vx.TempDir() + "/restored/db"
+	rerr := r.Restore(ctx, RestoreOptions{OutputPath: out, IntegrityCheck: IntegrityCheckNone})
+	vx.Assert("restore-from-the-replica-succeeds", rerr == nil)
+	if rerr != nil {
+		return
+	}
+	vx.Assert("restored-database-equals-source", vxDBEquals(out, source[:]))
 }
 
 // VxC04Fresh: a new process (no remembered sync state) after arbitrary activity.
